@@ -485,6 +485,7 @@ def chan_rules(prop, members=()):
         # parked payloads / local decay copies
         Sub(r"\b((?:\w+(?:\.|->))*(?:predecessor_ts|predecessor_error|ts))" + EMPLACE_T + r"\(\s*(\w+)\s*\);",
             r"{ variant_emplace(&\1, \2); if (vx_exc) %s; }" % prop, None),
+        Sub(r"auto\s*&&?\s*(\w+) = (\w+);", r"int \1 = ref_bind(\2);", None),
         Sub(r"auto (\w+) = (\w+);", r"int \1 = " + throwing(r"decay_copy(\2)", prop) + ";", None),
         Sub(r"std::tuple<std::decay_t<Ts>\.\.\.>\s+(\w+)\((\w+)\);", r"int \1 = " + throwing(r"decay_copy(\2)", prop) + ";", None),
         # successor / scheduler / child operation states
